@@ -38,6 +38,9 @@ def run(ctx):
     T.rejected_input(ctx, 'R10.2', classes)
     T.coercion_before_write(ctx, 'R10.2b', ['WeightedTally', 'TimestampWeightedTally'])
     T.reset_completeness(ctx, 'R10.3', classes)
+    # the simulation variants stamp an observation with the simulator clock (the timestamped variant integrates over exactly these times) and
+    # forward it unchanged otherwise (shared rule with C11)
+    T.r112_notify_dispatch(ctx)
     T.timestamp_protocol(ctx)
     ctx.rule('R10.5', 'NaN exactly when undefined: weighted mean / population variance defined from 1 observation, sample variants from 2 non-zero weights')
     spec = {('weighted_mean', ()): 1, ('weighted_variance', (True,)): 1, ('weighted_variance', (False,)): 2,
